@@ -25,6 +25,7 @@ EXPLANATION = (
     "same attribute, bit rate and node id of a DCF whenever set, the file name's suffix selects DCF/EDS when no type is given. R11 on import the node id in force (argument, else the document's NodeID) reaches every build_variable call and od.node_id (shared with C08.R7); R11 on import the node id in force (argument, else the document's NodeID) reaches every build_variable call and od.node_id (shared with C08.R7); R12 DeviceInfo tables of importer and exporter agree, CiA 306 types, a missing option skips only that option (shared with C08.R5); R10 structural assumptions shared by all properties: no class-level mutable object is mutated in place by instances, no method re-runs the constructor, logging statements cannot raise (typed eager formatting, divisions), no mutable default argument is kept or mutated, no new truth-value test of a None-able number, a look-up memory the pinned tree does not have is keyed by all its inputs (arithmetic keys folded over a grid of addresses) and, on the serving side, emptied somewhere."
     ' R7 / R9 and the attribute-option table are decided by specialising export_variable for probe variables (edscommon.export_writes); R5 accepts in-place selecting conditions; R1/R8 follow the kind dispatch through aliases.'
     " R2 also: the kind of value each data type's text becomes on import (shared with C08.R7); R9 also: text attributes are written unchanged."
+    ' R6 also: an error of close() reaches the caller (no handler around close() completes normally).'
 )
 ASSUMPTIONS = [
     "not decided: round trip for random dictionaries; configparser write/read symmetry is the trusted base",
